@@ -26,7 +26,7 @@ import (
 var fsKinds = []string{"undefined", "null", "boolean", "number", "string", "object", "array", "function", "regexp", "date", "error", "trap", "trapfn", "negative", "big", "nan",
 	"regexp_neg", "error_child", "proto_null", "date_invalid", "string_obj", "args", "frozen_array", "sparse", "bound", "empty_string", "infinity", "pos_infinity", "max_int", "min_int", "tiny",
 	"hs_group", "hs_class", "hs_backslash", "hs_quant", "hs_percent", "hs_surrogate", "hs_long", "hs_json",
-	"regexp_proto", "bound_bare", "utf16_digits", "utf16_surrogate", "fn_src_break", "dollar_nn", "date_proto", "error_proto", "string_proto", "array_proto", "function_proto", "number_proto", "boolean_proto"}
+	"nested_arrays", "mixed_array", "array_of_arrays_mixed", "regexp_proto", "bound_bare", "utf16_digits", "utf16_surrogate", "fn_src_break", "dollar_nn", "date_proto", "error_proto", "string_proto", "array_proto", "function_proto", "number_proto", "boolean_proto"}
 
 // kinds used when two positions vary together (the full product of all kinds
 // would be 50x50 per function)
@@ -78,6 +78,9 @@ function __mk(kind){
   case 'max_int': return 9223372036854775807;
   case 'min_int': return -9223372036854775808;
   case 'tiny': return 5e-324;
+  case 'nested_arrays': return [[[1]],[['a']]];
+  case 'mixed_array': return [1,'a',{b:2},[3],null,undefined,function(){}];
+  case 'array_of_arrays_mixed': return [[1,2],['a'],[{}],[[1.5]]];
   case 'regexp_proto': return RegExp.prototype;
   case 'date_proto': return Date.prototype;
   case 'error_proto': return Error.prototype;
@@ -207,6 +210,50 @@ func cellSrc(c *FSCase) string {
 	return b.String()
 }
 
+// goAPIWithString hands one string to every public entry point that takes one.
+func goAPIWithString(vm *otto.Otto, s string) (bad string) {
+	try := func(name string, f func()) {
+		if bad != "" {
+			return
+		}
+		defer func() {
+			if x := recover(); x != nil {
+				bad = fmt.Sprintf("%s panicked with %T: %v", name, x, clip(fmt.Sprint(x)))
+			}
+		}()
+		f()
+	}
+	try("Otto.Run", func() { vm.Run(s) })
+	try("Otto.Eval", func() { vm.Eval(s) })
+	try("Otto.Compile", func() {
+		if sc, err := vm.Compile("", s); err == nil && sc != nil {
+			_ = sc.String()
+		}
+	})
+	try("Otto.Call(src)", func() { vm.Call(s, nil) })
+	try("Otto.Call(src,this,args)", func() { vm.Call(s, 1, "a", 2) })
+	try("Otto.Call(new src)", func() { vm.Call("new "+s, nil) })
+	try("Otto.Object", func() { vm.Object(s) })
+	try("Otto.Get", func() { vm.Get(s) })
+	try("Otto.Set", func() { vm.Set(s, s) })
+	try("Otto.ToValue", func() {
+		if v, err := vm.ToValue(s); err == nil {
+			v.ToInteger()
+			v.ToFloat()
+			v.Export()
+		}
+	})
+	try("Object.Get/Set/Call(name)", func() {
+		if o, err := vm.Object("({a:1})"); err == nil && o != nil {
+			o.Get(s)
+			o.Set(s, 1)
+			o.Call(s)
+		}
+	})
+	try("Otto.MakeCustomError", func() { vm.MakeCustomError(s, s) })
+	return bad
+}
+
 // valueAccessors exercises the Value/Object accessors on a returned value; it
 // returns a description of the first one that panicked with something that
 // was not injected.
@@ -235,6 +282,9 @@ func valueAccessors(vm *otto.Otto, v otto.Value) (bad string) {
 	try("ToBoolean", func() { v.ToBoolean() })
 	try("Export", func() { v.Export() })
 	try("Class", func() { _ = v.Class() })
+	try("IsNaN/Is*", func() {
+		v.IsNaN(); v.IsString(); v.IsNumber(); v.IsObject(); v.IsFunction(); v.IsPrimitive(); v.IsDefined(); v.IsBoolean(); v.IsNull(); v.IsUndefined()
+	})
 	try("Call", func() { v.Call(otto.NullValue(), 1) })
 	if o := v.Object(); o != nil {
 		try("Object.Keys", func() { o.Keys() })
@@ -499,6 +549,10 @@ func execOOMProbe(c *FSCase, st *Stats) (*Violation, interface{}, bool) {
 		v, rc, ok := isolatedExec(fsEngine{}, c, st)
 		os.Unsetenv("VERIF_RLIMIT_MB")
 		os.Unsetenv("VERIF_CHILD_TIMEOUT_S")
+		if v != nil && c.Fault == "crashprobe" {
+			v.Key = "recursion-unaccounted " + c.Prog
+			return v, rc, ok
+		}
 		if v != nil {
 			// either the allocation fails (process dies) or, where memory is not
 			// capped, it succeeds and 2^32-1 iterations follow (process wedged):
@@ -513,6 +567,14 @@ func execOOMProbe(c *FSCase, st *Stats) (*Violation, interface{}, bool) {
 	if mb, _ := strconv.Atoi(os.Getenv("VERIF_RLIMIT_MB")); mb > 0 {
 		lim := syscall.Rlimit{Cur: uint64(mb) << 20, Max: uint64(mb) << 20}
 		syscall.Setrlimit(syscall.RLIMIT_AS, &lim)
+	}
+	if c.Fault == "crashprobe" {
+		st.Fault("unaccounted_recursion_under_limit")
+		st.NonTrivial++
+		st.Sig(hashStr("crashprobe", c.Prog))
+		cc := *c
+		cc.Fault = ""
+		return execRecursion(&cc, st)
 	}
 	st.Fault("huge_length_allocation")
 	st.NonTrivial++
@@ -530,8 +592,15 @@ func execOOMProbe(c *FSCase, st *Stats) (*Violation, interface{}, bool) {
 func (e fsEngine) Exec(ci interface{}, st *Stats) (*Violation, interface{}, bool) {
 	c := ci.(*FSCase)
 	st.Cases++
-	if c.Fault == "oomprobe" {
+	if c.Fault == "oomprobe" || c.Fault == "crashprobe" {
 		return execOOMProbe(c, st)
+	}
+	if c.Fault == "goapi" {
+		st.Runs++
+		if bad := goAPIWithString(newFSRuntime().vm, c.Prog); bad != "" {
+			return viol("C02", "go_panic_escaped", "Go API with the string %q: %s", c.Prog, bad), c, true
+		}
+		return nil, nil, true
 	}
 	if c.Fault == "prop" && c.Prog != "" {
 		r := newFSRuntime()
@@ -716,6 +785,22 @@ func execStrSweep(c *FSCase, st *Stats) (*Violation, interface{}, bool) {
 				}
 				mk = "String.fromCharCode(" + strings.Join(codes, ",") + ")"
 			}
+			if enc == 0 {
+				// the same text handed to the Go API as source, as a name, as a value
+				if bad := goAPIWithString(r.vm, prefix); bad != "" {
+					x := viol("C02", "go_panic_escaped", "Go API with the string %q: %s", prefix, bad)
+					x.Key = "goapi " + bad
+					if collectMode {
+						st.Probes["COLLECT "+x.Class+" | "+x.Key+" | "+clip(x.Detail)]++
+						r = newFSRuntime()
+					} else if kf := isKnown(x); kf != nil {
+						st.Known[kf.Property+" "+kf.Key]++
+						r = newFSRuntime()
+					} else {
+						return x, &FSCase{Engine: "faultsweep", Prog: prefix, Fault: "goapi"}, true
+					}
+				}
+			}
 			for _, path := range paths {
 				if path == "Date" && true {
 					// Date(S) as a function reads the clock but asserts nothing on the value
@@ -845,6 +930,14 @@ func (fsEngine) Enumerate(tier string) []interface{} {
 	}
 	for i := range strTemplates {
 		out = append(out, &FSCase{Engine: "faultsweep", Fault: "strsweep", From: i, Pairs: tier == "thorough"})
+	}
+	// recursion carried by Go code that enters no script context per level: only
+	// safe to try in a child process (a fatal stack overflow cannot be recovered)
+	for _, p := range []string{
+		"var s='eval(s)';eval(s)",
+		"JSON.stringify({},function(k,v){return {a:1}})",
+	} {
+		out = append(out, &FSCase{Engine: "faultsweep", Fault: "crashprobe", Prog: p, K: 64})
 	}
 	out = append(out, &FSCase{Engine: "faultsweep", Fault: "oomprobe", Path: "Array.prototype.toLocaleString", Recv: "neg_length", Args: []string{}})
 	out = append(out, &FSCase{Engine: "faultsweep", Fault: "oomprobe", Path: "Array.prototype.join", Recv: "neg_length", Args: []string{}})
